@@ -296,10 +296,12 @@ def h_noteperf(c):
   for n in ns.notes:
     n.is_drum = False
     n.program = 0
-  p0 = pl.NotePerformance(ns, bins, 0, 0, 1000, 1000)
+  start = c.params.get('start', 0)
+  p0 = pl.NotePerformance(ns, bins, 0, start, 1000, 1000)
   seq = p0.to_sequence()
   q2 = sl.quantize_note_sequence_absolute(seq, sps)
-  p1 = pl.NotePerformance(q2, bins, 0, 0, 1000, 1000)
+  p1 = pl.NotePerformance(q2, bins, 0, start, 1000, 1000)
+  c.check(p0.start_step == p1.start_step == start, 'same start step')
   a, b = list(p0), list(p1)
   c.check(len(a) == len(b) and bool(c.And(
       [c.And([c.eq(x.event_value, y.event_value) for x, y in zip(t, u)])
@@ -705,6 +707,7 @@ def jobs(tier):
   add('h_performance', kind='absolute', N=2, S=5, sps=100, bins=4, ms=100,
       start=0, overlap=True, pitch=[60, 60], budget=600)
   add('h_noteperf', N=2, S=6, sps=100, bins=32)
+  add('h_noteperf', N=2, S=6, sps=31, bins=32, start=2)
   if deep:
     for sps in (10, 31, 100, 250):
       for bins in (0, 1, 4, 32, 127):
